@@ -114,6 +114,29 @@ func runC06(r *Report) {
 		ci, ok := in.(ssa.CallInstruction)
 		return ok && CalleeOf(ci).Is("ConnectionCodeRepository.ReleaseClaim") && originSummary(Arg(ci, 0)) == "field:ActivateRequest.Code(param:req)"
 	}
+	// a same-package helper that performs the action on every one of its paths counts as the action
+	throughHelper := func(direct func(ssa.Instruction) bool, calleeName string) func(ssa.Instruction) bool {
+		return func(in ssa.Instruction) bool {
+			if direct(in) {
+				return true
+			}
+			ci, ok := in.(ssa.CallInstruction)
+			if !ok {
+				return false
+			}
+			g := CalleeOf(ci).Fn
+			if g == nil || g.Pkg != act.Pkg || len(g.Blocks) == 0 || g == act {
+				return false
+			}
+			all, _ := exitsPass(g, func(x ssa.Instruction) bool {
+				c2, ok := x.(ssa.CallInstruction)
+				return ok && CalleeOf(c2).Name == calleeName
+			})
+			return all
+		}
+	}
+	isDeleteCreatedH := throughHelper(isDeleteCreated, "DeletePortMapping")
+	isReleaseH := throughHelper(isRelease, "ReleaseClaim")
 	checkAfter := func(rule string, anchor ssa.CallInstruction, via func(ssa.Instruction) bool, what, key string) {
 		var start *ssa.BasicBlock
 		for _, b := range act.Blocks {
@@ -143,7 +166,7 @@ func runC06(r *Report) {
 		}
 		r.Ob(rule, pos, len(hits) == 0, what, "ActivateConnectionCode", key)
 	}
-	checkAfter("R-C06-2", create, isDeleteCreated, "every failure return after the mapping was created deletes the created mapping (a failed activation leaves no mapping behind)", "rollback-mapping")
+	checkAfter("R-C06-2", create, isDeleteCreatedH, "every failure return after the mapping was created deletes the created mapping (a failed activation leaves no mapping behind)", "rollback-mapping")
 	// claim success edge: ErrOK(claim) and claimed == true; use the block where both hold
 	var claimBlk *ssa.BasicBlock
 	cv := extractOf(claim, 0)
@@ -161,7 +184,7 @@ func runC06(r *Report) {
 		r.Fail("R-C06-2", CallPos(claim), "no block is dominated by a successful claim", "ActivateConnectionCode", "rollback-claim")
 	} else {
 		hits := WalkFrom(claimBlk, nil, func(in ssa.Instruction) int {
-			if OrDeferred(isRelease)(in) {
+			if OrDeferred(isReleaseH)(in) {
 				return Stop
 			}
 			if ret, ok := in.(*ssa.Return); ok {
@@ -177,6 +200,35 @@ func runC06(r *Report) {
 			pos = hits[0].Pos()
 		}
 		r.Ob("R-C06-2", pos, len(hits) == 0, "every failure return after the claim releases it (otherwise a failed activation burns the code)", "ActivateConnectionCode", "rollback-claim")
+	}
+
+	// the claim is kept when the operation succeeds (it is what makes the code one-time)
+	keepClaim := func(f *ssa.Function, name string) {
+		for _, g := range WithAnon(f) {
+			Instrs(g, func(in ssa.Instruction) {
+				ci, ok := in.(ssa.CallInstruction)
+				if !ok || !CalleeOf(ci).Is("ConnectionCodeRepository.ReleaseClaim") {
+					return
+				}
+				bad := false
+				if _, isDefer := in.(*ssa.Defer); isDefer || g != f {
+					bad = true // a deferred release also runs on the success exit
+				} else {
+					hits := WalkFrom(nil, in, func(x ssa.Instruction) int {
+						if ret, ok := x.(*ssa.Return); ok && RetErrKind(ret) == "nil" {
+							return Hit
+						}
+						return Cont
+					}, nil)
+					bad = len(hits) > 0
+				}
+				r.Ob("R-C06-2", CallPos(ci), !bad, "the one-time claim is released only on failure paths: releasing it after a success lets a stale concurrent activation (or revocation) use the code again", name, "claim-kept-on-success")
+			})
+		}
+	}
+	keepClaim(act, "ActivateConnectionCode")
+	if rv := r.P.Fn(ccPkg, "Service.RevokeConnectionCode"); rv != nil {
+		keepClaim(rv, "RevokeConnectionCode")
 	}
 
 	// ---- R-C06-3 what the mapping binds -------------------------------------------------
